@@ -32,8 +32,11 @@ func (c *HTTPResponder) AddHeader(name string, value string) {
 
 func (c *HTTPResponder) SetHeaders(headers http.Header) {
 	for key, values := range headers {
+		// Replace whatever was set for this field before, but keep every value of a
+		// multi-valued field (Set-Cookie, Link, Vary, ...) in order.
+		c.GetHeaders().Del(key)
 		for _, value := range values {
-			c.SetHeader(key, value)
+			c.AddHeader(key, value)
 		}
 	}
 }
